@@ -22,6 +22,12 @@ struct ElemThrow : std::exception {
   const char *what() const noexcept override { return "injected element exception"; }
 };
 
+/// what the instrumented allocators throw when a failure is injected: an allocator may throw any exception type, so the
+/// containers must not rely on it being std::bad_alloc
+struct AllocThrow : std::exception {
+  const char *what() const noexcept override { return "injected allocator exception"; }
+};
+
 struct Counters {
   long cc = 0, mc = 0, ca = 0, ma = 0, dt = 0, vi = 0, ic = 0;
   long al = 0, de = 0, re = 0;
@@ -110,6 +116,7 @@ struct ElemBase {
     born(v);
     auto it = G().live.find(o.id);
     if (it != G().live.end()) it->second = 2;
+    o.val = -777;  // a moved-from object does not keep its value
     ++G().ev.mc;
   }
   ElemBase &operator=(const ElemBase &o) {
@@ -134,6 +141,7 @@ struct ElemBase {
     G().live[id] = 1;
     auto it = G().live.find(o.id);
     if (it != G().live.end()) it->second = 2;
+    o.val = -777;
     ++G().ev.ma;
     return *this;
   }
@@ -200,7 +208,7 @@ inline std::string showVal(const ElemBase<S> &e) {
 // allocators with a pointer -> size ledger
 // ---------------------------------------------------------------------------------------------------
 inline void *ledgerAlloc(size_t bytes) {
-  if (G().tick()) throw std::bad_alloc();
+  if (G().tick()) throw AllocThrow();
   void *p = std::malloc(bytes ? bytes : 1);
   if (!p) throw std::bad_alloc();
   G().blocks[p] = bytes;
@@ -230,7 +238,7 @@ struct InstrBasicAllocator {
   }
   void *reallocate(void *p, size_t oldSz, size_t newSz) {
     ++G().ev.re;
-    if (G().tick()) throw std::bad_alloc();
+    if (G().tick()) throw AllocThrow();
     if (p != nullptr) {
       auto it = G().blocks.find(p);
       if (it == G().blocks.end()) {
@@ -303,7 +311,7 @@ struct ReallocLedgerAllocator : LedgerAllocator<T> {
   ReallocLedgerAllocator(const ReallocLedgerAllocator<U> &) {}
   T *reallocate(T *p, size_t oldCapa, size_t newCapa, size_t nConstructed) {
     ++G().ev.re;
-    if (G().tick()) throw std::bad_alloc();
+    if (G().tick()) throw AllocThrow();
     if (nConstructed > oldCapa || nConstructed > newCapa) G().fault("badRealloc:live");
     if (p != nullptr) {
       auto it = G().blocks.find(p);
